@@ -92,8 +92,10 @@ impl App {
             &krate_collection,
             &diagnostics,
         );
-        let router = Router::lift(router, component_db.user_component_id2component_id());
+        // Components that failed validation have no `ComponentId`: lifting the router
+        // before this gate would index them (e.g. a fallback that returns `()`).
         exit_on_errors!(diagnostics);
+        let router = Router::lift(router, component_db.user_component_id2component_id());
         let mut constructible_db = ConstructibleDb::build(
             &mut component_db,
             &mut computation_db,
